@@ -396,6 +396,9 @@ impl Monitor for C07 {
             obs.sample(J::obj(vec![("pack", J::s(truncate(&src, 300))), ("parse", J::s(truncate(&psrc, 300))), ("emit", J::s(truncate(&esrc, 300)))]));
         }
     }
+    fn boot_mut(&mut self) -> Option<&mut Xstate> {
+        Some(&mut self.boot)
+    }
     fn describe(&mut self, idx: u64) -> String {
         format!("pack/parse record #{}", idx)
     }
